@@ -5,6 +5,9 @@ import (
 	"math"
 	"testing"
 
+	"github.com/DataDog/sketches-go/ddsketch"
+	"github.com/DataDog/sketches-go/ddsketch/stat"
+
 	"pgregory.net/rapid"
 	"verifharness/gen"
 	"verifharness/model"
@@ -175,6 +178,28 @@ func TestC10(t *testing.T) {
 					afterAdd[op.Kind] = true
 				}
 				check(t, op.String())
+			},
+			"fromdata": func(t *rapid.T) {
+				// rebuild the exact sketch from its plain part and its four statistics (public constructors)
+				count, sum := e.s.GetCount(), e.s.GetSum()
+				mn, mx := math.Inf(1), math.Inf(-1)
+				if count != 0 {
+					mn, _ = e.s.GetMinValue()
+					mx, _ = e.s.GetMaxValue()
+				}
+				st, err := stat.NewSummaryStatisticsFromData(count, sum, mn, mx)
+				if err != nil {
+					t.Fatalf("C10 %s: NewSummaryStatisticsFromData(%v,%v,%v,%v) refused the sketch's own statistics: %v", e.cfg, count, sum, mn, mx, err)
+				}
+				ns, err := ddsketch.NewDDSketchWithExactSummaryStatisticsFromData(e.s.Inner().Copy(), st)
+				if err != nil {
+					t.Fatalf("C10 %s: NewDDSketchWithExactSummaryStatisticsFromData refused matching data: %v", e.cfg, err)
+				}
+				cl.logf("rebuild from data")
+				e.s = obs.SK{Exact: ns}
+				e.inex++
+				cl.label("op:fromdata")
+				check(t, "rebuilding from data")
 			},
 			"changemapping": func(t *rapid.T) {
 				if changes >= 3 || e.cfg.anyCollapsing() {
